@@ -266,3 +266,63 @@ func (r *Rng) Scalar256(bd [][]byte) []byte {
 		return r.Bytes(32)
 	}
 }
+
+// MontLadder is the x-only Montgomery ladder of RFC 7748 on plain integers: the u-coordinate of [k](u, .) on
+// curve25519 or its twist (no clamping; 0 for the point at infinity). Used only to CONSTRUCT inputs.
+func MontLadder(k, u *big.Int) *big.Int {
+	mod := func(x *big.Int) *big.Int { return x.Mod(x, P) }
+	a24 := big.NewInt(121665)
+	x1 := new(big.Int).Mod(u, P)
+	x2, z2, x3, z3 := big.NewInt(1), big.NewInt(0), new(big.Int).Set(x1), big.NewInt(1)
+	for t := k.BitLen() - 1; t >= 0; t-- {
+		if k.Bit(t) == 1 {
+			x2, x3, z2, z3 = x3, x2, z3, z2
+		}
+		A := mod(new(big.Int).Add(x2, z2))
+		AA := mod(new(big.Int).Mul(A, A))
+		B := mod(new(big.Int).Sub(x2, z2))
+		BB := mod(new(big.Int).Mul(B, B))
+		E := mod(new(big.Int).Sub(AA, BB))
+		C := mod(new(big.Int).Add(x3, z3))
+		D := mod(new(big.Int).Sub(x3, z3))
+		DA := mod(new(big.Int).Mul(D, A))
+		CB := mod(new(big.Int).Mul(C, B))
+		t1 := mod(new(big.Int).Add(DA, CB))
+		x3 = mod(new(big.Int).Mul(t1, t1))
+		t2 := mod(new(big.Int).Sub(DA, CB))
+		z3 = mod(new(big.Int).Mul(x1, mod(new(big.Int).Mul(t2, t2))))
+		x2 = mod(new(big.Int).Mul(AA, BB))
+		z2 = mod(new(big.Int).Mul(E, mod(new(big.Int).Add(AA, mod(new(big.Int).Mul(a24, E))))))
+		if k.Bit(t) == 1 {
+			x2, x3, z2, z3 = x3, x2, z3, z2
+		}
+	}
+	if z2.Sign() == 0 {
+		return big.NewInt(0)
+	}
+	return mod(new(big.Int).Mul(x2, new(big.Int).ModInverse(z2, P)))
+}
+
+// TwistL is the prime order of the large subgroup of the quadratic twist of curve25519 (twist order 4*TwistL).
+var TwistL = func() *big.Int {
+	// 2(p+1) - 8L = 4 L'
+	t := new(big.Int).Lsh(new(big.Int).Add(P, big.NewInt(1)), 1)
+	t.Sub(t, new(big.Int).Lsh(L, 3))
+	return t.Rsh(t, 2)
+}()
+
+// PreimageForOutput finds, for a clamped scalar k (as an integer) and a wanted output u-coordinate, an input
+// u-coordinate with [k]in = out; ok is false when out does not lie in a prime-order subgroup (curve or twist).
+func PreimageForOutput(k, out *big.Int) (*big.Int, bool) {
+	for _, q := range []*big.Int{L, TwistL} {
+		if MontLadder(q, out).Sign() == 0 {
+			kinv := new(big.Int).ModInverse(new(big.Int).Mod(k, q), q)
+			if kinv == nil {
+				return nil, false
+			}
+			in := MontLadder(kinv, out)
+			return in, MontLadder(k, in).Cmp(new(big.Int).Mod(out, P)) == 0
+		}
+	}
+	return nil, false
+}
